@@ -356,6 +356,14 @@ def run(tier):
         for k in range(1, 8):
             h = [["get", 0, "sys"], ["reply", 0, "octets", 61], ["get", 0, "sys"], ["reply", 0, "partial", k], ["reply", 0, "octets", 20 + k]]
             part.append({"cfgs": [cfg.describe()], "history": h})
+    # AES: scoped PDU k octets short after a complete reply of the same shape (the decrypt buffer still holds its plaintext)
+    for auth in (1, 2):
+        cfg = Cfg("v3", auth=auth, priv=2)
+        for n in (3, 9, 15):
+            h = []
+            for k in (1, 2, 7, 14):
+                h += [["get", 0, "sys"], ["reply", 0, "octets", 40 + n], ["get", 0, "sys"], ["reply", 0, "cut", 40 + n, k], ["reply", 0, "octets", 40 + n]]
+            part.append({"cfgs": [cfg.describe()], "history": h})
     for _, res in pool.run(work_partial, [part[i : i + 4] for i in range(0, len(part), 4)], timeout=600, case_timeout=300, log_path=lp, on_failure=on_failure):
         rec.merge(res)
     # truncated datagrams after a complete one
